@@ -212,7 +212,7 @@ func genC15(t *rapid.T, p *gen.Profile) *C15Case {
 	if len(pools.Accounts) > 4 {
 		pools.Accounts = pools.Accounts[:4]
 	}
-	ws := gen.GenWorkspace(t, p, pools, gen.WSOpts{MinFiles: 2, MaxFiles: 3, AllReachable: true,
+	ws := gen.GenWorkspace(t, p, pools, gen.WSOpts{MinFiles: 2, MaxFiles: 4, AllReachable: true,
 		Journal: gen.JournalOpts{MinEntries: 2, MaxEntries: 5, Directives: true, TopComments: false, Tx: gen.TxOpts{MaxPostings: 5, MaxScale: 2, MaxDigits: 4}}})
 	// make sure one transaction is out of balance in several commodities
 	syms := append([]string{}, pools.Syms...)
@@ -227,6 +227,27 @@ func genC15(t *rapid.T, p *gen.Profile) *C15Case {
 	}
 	f0 := ws.Files[0].Journal
 	f0.Entries = append(f0.Entries, m.Entry{Tx: tx, Blank: 1})
+	// a payee and a commodity format that only the included files know, each file differently: whose
+	// template / format is used must not depend on anything but the include directives
+	for i := 1; i < len(ws.Files); i++ {
+		fj := ws.Files[i].Journal
+		amt := gen.GenAmountFor(t, p, "ZZZ", m.Num{Mant: fmt.Sprint(10 + i), Scale: 1})
+		fj.Entries = append(fj.Entries,
+			m.Entry{Dir: &m.Directive{Kind: "commodity", Fmt: &m.Fmt{Sym: "ZZZ", Space: true, Dec: ".", Decimals: i + 1}}, Blank: 1},
+			m.Entry{Tx: &m.Tx{Date: m.Date{Y: 2030, M: 2, D: i, Sep: "-", Pad: true}, Payee: "only in includes",
+				Body: []m.BodyItem{{P: &m.Posting{Account: pools.Accounts[i%len(pools.Accounts)], Amt: amt, Indent: "    ", Sep: "  "}},
+					{P: &m.Posting{Account: pools.Accounts[(i+1)%len(pools.Accounts)], Indent: "    ", Sep: "  "}}}}, Blank: 1})
+	}
+	f0.Entries = append(f0.Entries,
+		m.Entry{Tx: &m.Tx{Date: m.Date{Y: 2030, M: 3, D: 1, Sep: "-", Pad: true}, Payee: "uses zzz",
+			Body: []m.BodyItem{{P: &m.Posting{Account: pools.Accounts[0], Amt: gen.GenAmountFor(t, p, "ZZZ", m.Num{Mant: "15", Scale: 1}), Indent: "    ", Sep: "  "}},
+				{P: &m.Posting{Account: pools.Accounts[len(pools.Accounts)-1], Indent: "    ", Sep: "  "}}}}, Blank: 1},
+		m.Entry{Tx: &m.Tx{Date: m.Date{Y: 2031, M: 1, D: 20, Sep: "-", Pad: true}, Payee: "only in includes"}, Blank: 1})
+	// a header without postings for every payee: the blank line after it is where the posting
+	// template of that payee (whichever file it comes from) is offered as ghost text
+	for i, py := range pools.Payees {
+		f0.Entries = append(f0.Entries, m.Entry{Tx: &m.Tx{Date: m.Date{Y: 2031, M: 1, D: i + 1, Sep: "-", Pad: true}, Payee: py}, Blank: 1})
+	}
 	c := &C15Case{WS: ws, Root: rapid.Bool().Draw(t, "root"), Open: []int{0, 1}}
 	if len(ws.Files) > 2 && rapid.Bool().Draw(t, "open3") {
 		c.Open = append(c.Open, 2)
